@@ -17,7 +17,6 @@ package message
 import (
 	"bytes"
 	"fmt"
-	"sync/atomic"
 )
 
 // UnsubscribeMessage is a UNSUBSCRIBE packet, sent by the Client to the Server, to unsubscribe from topics.
@@ -121,7 +120,14 @@ func (m *UnsubscribeMessage) Decode(src []byte) (int, error) {
 		return total, err
 	}
 
+	// Nothing behind the end of this packet belongs to it.
+	src = src[:total+int(m.remlen)]
+
 	//this.packetId = binary.BigEndian.Uint16(src[total:])
+	if m.remlen < 2 {
+		return total, fmt.Errorf("unsubscribe/Decode: Insufficient remaining length. Expecting at least %d, got %d", 2, m.remlen)
+	}
+
 	m.packetID = src[total : total+2]
 	total += 2
 
@@ -180,7 +186,7 @@ func (m *UnsubscribeMessage) Encode(dst []byte) (int, error) {
 	}
 
 	if m.PacketID() == 0 {
-		m.SetPacketID(uint16(atomic.AddUint64(&gPacketID, 1) & 0xffff))
+		m.SetPacketID(nextPacketID())
 		//this.packetId = uint16(atomic.AddUint64(&gPacketId, 1) & 0xffff)
 	}
 
